@@ -374,6 +374,8 @@ pub struct FlavourResult {
     pub mismatches: usize,
     pub skipped_seed_mismatch: usize,
     pub detail: String,
+    /// one entry per script that disagreed (its first disagreeing step)
+    pub details: Vec<String>,
 }
 
 /// the policy-queue capacity differs between the flavours (bounded 3 vs unbounded): `pq=` and the
@@ -399,7 +401,7 @@ fn mask(s: &str) -> String {
 
 pub fn differential(rng: &mut Rng, scripts: usize, len: usize) -> FlavourResult {
     crate::live::mark_client_pub();
-    let mut res = FlavourResult { scripts: 0, steps: 0, mismatches: 0, skipped_seed_mismatch: 0, detail: String::new() };
+    let mut res = FlavourResult { scripts: 0, steps: 0, mismatches: 0, skipped_seed_mismatch: 0, detail: String::new(), details: Vec::new() };
     for si in 0..scripts {
         let (cfg, ops) = gen_script(rng, len);
         let exec = match si % 3 {
@@ -430,11 +432,15 @@ pub fn differential(rng: &mut Rng, scripts: usize, len: usize) -> FlavourResult 
             res.steps += 1;
             if mask(s) != mask(a) {
                 res.mismatches += 1;
+                let d = format!(
+                    "script {} on {} ({:?}), step {} {:?}: Cache gave [{}] but AsyncCache gave [{}]",
+                    si, exec_name, cfg, i, ops[i], mask(s), mask(a)
+                );
                 if res.detail.is_empty() {
-                    res.detail = format!(
-                        "script {} on {} ({:?}), step {} {:?}: Cache gave [{}] but AsyncCache gave [{}]",
-                        si, exec_name, cfg, i, ops[i], mask(s), mask(a)
-                    );
+                    res.detail = d.clone();
+                }
+                if res.details.len() < 16 {
+                    res.details.push(d);
                 }
                 break;
             }
